@@ -26,6 +26,8 @@ val mul : nat -> nat -> nat
 
 val sub : nat -> nat -> nat
 
+val eqb : bool -> bool -> bool
+
 module Nat :
  sig
   val eqb : nat -> nat -> bool
@@ -40,6 +42,8 @@ val tl : 'a1 list -> 'a1 list
 val nth : nat -> 'a1 list -> 'a1 -> 'a1
 
 val nth_error : 'a1 list -> nat -> 'a1 option
+
+val rev : 'a1 list -> 'a1 list
 
 val rev_append : 'a1 list -> 'a1 list -> 'a1 list
 
@@ -251,6 +255,8 @@ val get_lists : nat -> z list -> z list list * z list
 
 val of_Ns : n list -> z list
 
+val list_eqb : z list -> z list -> bool
+
 val m32 : z
 
 val u32 : z -> z
@@ -302,6 +308,33 @@ type config = { sh : shared; ths : pc list; hist : (nat * res) list }
 
 val step : config -> (nat * op) -> config option
 
+type oprec = { o_push : bool; o_val : z; o_lp : bool; o_got : z;
+               o_excuse : bool }
+
+type tstate = { t_next : nat; t_cur : oprec option; t_done : oprec list }
+
+type jstate = { j_q : z list; j_ths : tstate list; j_ok : bool }
+
+val updn : 'a1 list -> nat -> 'a1 -> 'a1 list
+
+val set_excuse : oprec -> oprec
+
+val boundary_now : z -> z list -> oprec -> bool
+
+val look : z -> z list -> tstate -> tstate
+
+val in_flight : tstate -> bool
+
+val excuse_all : tstate -> tstate
+
+val finish : tstate -> tstate
+
+val j_start : z -> z list list -> jstate -> nat -> jstate
+
+val j_lp : z -> jstate -> nat -> bool -> jstate
+
+val check_results : oprec list -> z list -> bool
+
 val evLoadU32 : z
 
 val evStoreU32 : z
@@ -335,6 +368,19 @@ val results_of : (nat * res) list -> nat -> z list
 val enc_slot : (z option * z) -> z list
 
 val run_case : z list -> z list
+
+val entry0 : z -> z list -> z list
+
+val judge_steps :
+  nat -> z -> z list list -> jstate -> z list -> jstate * z list
+
+val check_threads : tstate list -> z list -> bool * z list
+
+val slot_vals : z list -> z list
+
+val check_final : z -> z list -> z list -> bool
+
+val judge : z list -> z list
 
 val entry : z -> z list -> z list
 
@@ -454,6 +500,6 @@ val dec_op0 : z -> z -> z -> op0 option
 
 val dec_ops : nat -> z list -> op0 list option
 
-val entry0 : z -> z list -> z list
+val entry1 : z -> z list -> z list
 
 val dispatch : z -> z -> z list -> z list
